@@ -107,6 +107,9 @@ struct P {
     /// (its tree depends on the precedence table): swap and/or, let `not` take everything
     swap_and_or: bool,
     loose_not: bool,
+    /// treat a missing ')' at the very end as present (the engine does; the properties say
+    /// nothing about unbalanced parentheses)
+    lenient_parens: bool,
 }
 
 /// intermediate: either a predicate or a bare operand of a comparison
@@ -173,7 +176,9 @@ impl P {
             }
             Some(Tok::LPar) => {
                 let x = self.and_level()?;
-                self.expect(Tok::RPar)?;
+                if !(self.lenient_parens && self.i >= self.t.len()) {
+                    self.expect(Tok::RPar)?;
+                }
                 match x {
                     Node::Pred(c) => Ok(Node::Pred(Cond::Paren(Box::new(c)))),
                     o => Ok(o),
@@ -222,9 +227,20 @@ pub fn parse(s: &str) -> Result<Cond, String> {
     parse_with(s, false, false)
 }
 
+/// like `parse`, but a missing ')' at the end of the condition is tolerated
+pub fn parse_lenient(s: &str) -> Result<Cond, String> {
+    let t = tokens(s)?;
+    let mut p = P { t, i: 0, swap_and_or: false, loose_not: false, lenient_parens: true };
+    let n = p.and_level()?;
+    if p.i != p.t.len() {
+        return Err("trailing tokens".into());
+    }
+    pred(n)
+}
+
 pub fn parse_with(s: &str, swap_and_or: bool, loose_not: bool) -> Result<Cond, String> {
     let t = tokens(s)?;
-    let mut p = P { t, i: 0, swap_and_or, loose_not };
+    let mut p = P { t, i: 0, swap_and_or, loose_not, lenient_parens: false };
     let n = p.and_level()?;
     if p.i != p.t.len() {
         return Err("trailing tokens".into());
